@@ -390,6 +390,46 @@ func main() {
 			t.Outcome("delivered-as-model")
 		})
 
+		// "The result does not depend on how the transport splits the bytes across reads": also
+		// when the stream stops short. Every stream cut at every offset is run over the plain
+		// source and over a standard bufio.Reader holding the same bytes (with its own Discard,
+		// Peek, WriteTo): what is delivered and the error that ends the run are the same.
+		r.Part("E10-cut-streams-over-plain-and-buffered-sources", func(t *explore.T) {
+			all := collect(t.Pick(2, 3), smallCtl)
+			t.Par(len(all), func(i int) {
+				st := all[i]
+				data, _ := streams.Wire(st.frames)
+				for cut := 0; cut < len(data); cut++ {
+					for _, d := range ds {
+						cut, d := cut, d
+						t.Do(func() string {
+							return fmt.Sprintf("%s %s cut at %d of %d, driver=%s: plain source vs bufio.Reader", st.side, streams.Describe(st.frames), cut, len(data), d.Name)
+						}, func() *explore.Fail {
+							run := func(buffered bool) (string, string) {
+								src := env.NewSrc(data[:cut])
+								var rd io.Reader = src
+								if buffered {
+									br := bufio.NewReaderSize(src, 64)
+									br.Peek(1)
+									rd = br
+								}
+								var res drivers.Result
+								d.Run(rd, st.side, drivers.Cfg{}, &res)
+								return drivers.FmtEvents(res.Events) + fmt.Sprintf(" partial=%x", res.Partial), fmt.Sprint(res.Err)
+							}
+							pe, perr := run(false)
+							be, berr := run(true)
+							if pe != be || perr != berr {
+								return explore.Failf("cut-stream-outcome-depends-on-the-reader-type:"+d.Name, "plain:    %s err=%s\nbuffered: %s err=%s", pe, perr, be, berr)
+							}
+							return nil
+						})
+					}
+				}
+			})
+			t.Outcome("same")
+		})
+
 		// "Any number of fragments (including empty ones), control frames interleaved anywhere": a
 		// message whose first and last fragment are separated by a long run of frames that carry no
 		// message bytes - empty continuations, pings, pongs, or a mix - through every driver.
